@@ -1,8 +1,8 @@
 SPECIFICATION Spec
 CONSTANTS
-  LF = {0, 100, 130, 110, 101, 10}
+  LF = {0, 100, 130, 110, 101}
   LD = {0}
-  LX = {0, 100, 160}
+  LX = {0, 100}
   LY = {0}
   MaxTerms = 3
   Nested = FALSE
